@@ -523,6 +523,169 @@ where
     mk_cfg(input, steps)
 }
 
+// ---------------------------------------------------------------- long steering (speculative)
+
+/// result of `steer_long`
+pub struct LongSteer {
+    pub cfg: Config,
+    /// body steps whose choice was confirmed to follow the policy
+    pub matched: usize,
+    pub runs: usize,
+    pub complete: bool,
+}
+
+/// Policy-steered run of thousands of opcodes. `steer` re-probes every step (quadratic);
+/// this one guesses that the choice pattern is eventually periodic: after each corrected
+/// step the rest of the input is filled with a cyclic repetition of the bytes since the
+/// last step that chose the same opcode from a candidate list of the same size, and one
+/// full-length run confirms (or refutes, at the first deviating step) thousands of steps
+/// at once. `policy(step, offered opcodes) -> index into the offered list`.
+pub fn steer_long<P>(base: &Config, steps: usize, frame: bool, max_runs: usize, policy: P) -> LongSteer
+where
+    P: Fn(usize, &[u8]) -> usize,
+{
+    let mut input: Vec<u8> = if base.proto >= 4 { vec![frame as u8] } else { vec![] };
+    input.extend([0u8; 32]);
+    let mk_cfg = |input: Vec<u8>, k: usize| -> Config {
+        Config {
+            entropy: Entropy::Bytes(input),
+            min: k,
+            max: k,
+            ..base.clone()
+        }
+    };
+    let tr = verif::Config {
+        snapshots: false,
+        choices: true,
+        step_limit: 0,
+    };
+    // confirmed steps: (input position of the choice byte, chosen opcode, size of the offered list)
+    let mut info: Vec<(usize, u8, usize)> = Vec::new();
+    let mut l = steps.min(32);
+    let mut runs = 0usize;
+    let mut complete = false;
+    while runs < max_runs {
+        let cfg = mk_cfg(input.clone(), l);
+        let res = run_case(&cfg, Some(tr));
+        runs += 1;
+        if !matches!(res.outcome, Outcome::Ok(_)) {
+            break;
+        }
+        let ch: Vec<(usize, &Vec<u8>)> = res
+            .events
+            .iter()
+            .filter_map(|e| match e {
+                Event::Choice {
+                    valid,
+                    entropy_left: Some(left),
+                    ..
+                } => Some((input.len() - *left, valid)),
+                _ => None,
+            })
+            .collect();
+        let mut mismatch = None;
+        let mut dead = false;
+        for e in info.len()..ch.len() {
+            let (pos, valid) = ch[e];
+            let n = valid.len();
+            if n == 0 || n > 256 {
+                dead = true;
+                break;
+            }
+            let want = policy(e, valid).min(n - 1);
+            let got = if n <= 1 {
+                0
+            } else if pos >= input.len() {
+                usize::MAX
+            } else {
+                input[pos] as usize % n
+            };
+            if got != want {
+                mismatch = Some((e, pos, want, n, valid[want]));
+                break;
+            }
+            info.push((pos, valid[want], n));
+        }
+        if dead {
+            break;
+        }
+        match mismatch {
+            None => {
+                if ch.len() < l {
+                    break;
+                }
+                if l == steps {
+                    complete = true;
+                    break;
+                }
+                l = (l * 4).min(steps);
+            }
+            Some((e, pos, want, n, op)) => {
+                let pos = pos.min(input.len());
+                let prev = info.iter().rposition(|&(_, o, m)| o == op && m == n);
+                let mut cyc: Vec<u8> = match prev {
+                    Some(p) => input[info[p].0.min(pos)..pos].to_vec(),
+                    None => vec![],
+                };
+                let per = match prev {
+                    Some(p) => (e - p).max(1),
+                    None => 1,
+                };
+                if cyc.is_empty() {
+                    cyc = vec![want as u8; 16];
+                } else if n > 1 {
+                    cyc[0] = want as u8;
+                }
+                input.truncate(pos);
+                let need = (steps - e + 8) * (cyc.len() / per + 1) + 64;
+                let mut k = 0usize;
+                while k < need {
+                    input.extend_from_slice(&cyc);
+                    k += cyc.len();
+                }
+            }
+        }
+    }
+    LongSteer {
+        cfg: mk_cfg(input, steps),
+        matched: info.len(),
+        runs,
+        complete,
+    }
+}
+
+/// "X whenever offered, else Y whenever offered, else the first offered" for opcode bytes X, Y
+pub fn greedy_policy(x: u8, y: u8) -> impl Fn(usize, &[u8]) -> usize {
+    move |_d, valid| {
+        if let Some(i) = valid.iter().position(|&o| o == x) {
+            i
+        } else if let Some(i) = valid.iter().position(|&o| o == y) {
+            i
+        } else {
+            0
+        }
+    }
+}
+
+/// (X, Y) pairs for the deep-state block: every opcode of the table greedily, backed by the
+/// openers that make it applicable
+pub fn deep_pairs() -> Vec<(u8, u8)> {
+    let openers: [u8; 12] = [b'(', b']', b'}', b'N', b'2', b'\x8f', b')', b'\x94', b'q', b'K', b'p', b'I'];
+    let mut v = Vec::new();
+    for row in crate::optable::OPTABLE.iter() {
+        let x = row.code;
+        if x == b'.' || x == 0x80 || x == 0x95 {
+            continue;
+        }
+        for y in openers {
+            if y != x {
+                v.push((x, y));
+            }
+        }
+    }
+    v
+}
+
 // ---------------------------------------------------------------- oracle self-test streams
 
 /// A structure-UNAWARE random opcode stream with well-formed arguments, used only to
